@@ -7,7 +7,8 @@
 (* harness/drv_numeric.c executes every line on the real library.          *)
 (* Environment: OUT file; GROUPS = "d" (the big group of decimal shapes,   *)
 (* partitioned over processes by PART / NPARTS) or "x" (all other groups:  *)
-(* l long runs, m landmarks, i integer limits, n nondecimal, u units,      *)
+(* l long runs, w white-space kinds, m landmarks, i integer limits,         *)
+(* n nondecimal, u units,                                                  *)
 (* s specials); TIER quick|thorough; SEED for pseudo-random digit runs.    *)
 (***************************************************************************)
 EXTENDS ScpiNumeric, Json, IOUtils
@@ -78,6 +79,14 @@ InitLongExp ==
   /\ grp = "l"
   /\ \E n \in 1..25, last \in {48, 50}, esg \in Signs, ws \in WsQ :
        x = WithExp(MkShape(<<>>, <<49, 53>>, FALSE, <<>>), ws, 69, <<>>, esg, [i \in 1..n |-> IF i = n THEN last ELSE 48])
+
+(* w: kinds of white space (tab, several) in both exponent positions *)
+WsKinds == {<<>>, <<9>>, <<32, 32>>, <<32, 9>>}
+InitWsKinds ==
+  /\ grp = "w"
+  /\ \E m \in {MkShape(<<>>, <<50>>, FALSE, <<>>), MkShape(<<45>>, <<49>>, TRUE, <<50, 53>>), MkShape(<<>>, <<>>, TRUE, <<53>>)},
+        ws1 \in WsKinds, e \in ExpCh, ws2 \in WsKinds, esg \in Signs, ed \in {<<50>>, <<49, 48>>} :
+        x = WithExp(m, ws1, e, ws2, esg, ed)
 
 (* m: landmarks of binary floating point (ties, largest / smallest finite, subnormal, overflow) *)
 Lm(sg, ip, fp, esg, ed) == IF ed = <<>> THEN MkShape(sg, B(ip), fp # <<>>, B(fp))
@@ -163,10 +172,10 @@ InitSpecial == /\ grp = "s"
                     IN x = IF cs = 1 THEN f ELSE IF cs = 2 THEN LowerSeq(f) ELSE Mixed(f)
 
 Init == \/ (IOEnv.GROUPS = "d" /\ InitDec)
-        \/ (IOEnv.GROUPS = "x" /\ (InitLong \/ InitLongExp \/ InitLandmark \/ InitInt \/ InitNondec \/ InitUnit \/ InitSpecial))
+        \/ (IOEnv.GROUPS = "x" /\ (InitLong \/ InitLongExp \/ InitWsKinds \/ InitLandmark \/ InitInt \/ InitNondec \/ InitUnit \/ InitSpecial))
 Next == UNCHANGED vars
 
-Lit == IF grp \in {"d", "l", "m", "i"} THEN Build(x) ELSE x
+Lit == IF grp \in {"d", "l", "w", "m", "i"} THEN Build(x) ELSE x
 Emit == Serialize(ToJson(Expect(Lit) @@ [grp |-> grp]) \o "\n", IOEnv.OUT,
                   [format |-> "TXT", charset |-> "UTF-8", openOptions |-> <<"WRITE", "CREATE", "APPEND">>]).exitValue = 0
 =============================================================================
